@@ -103,7 +103,7 @@ CHECKS = {
         "same sky positions for any plane of the fit given an equivariant fit (C08). Correspondence: corrector models "
         "fed with the reported (M, s) and the plane vs every member after real align_wcs runs on groups of 1..4 mixed "
         "FITS/gWCS members. Oracle: landing of all members, identical fit_info, rigidity on probe pixels, repeat in an "
-        "alternative plane (rotated / scaled / other corrector type). ADDED: the whole of align_to_ref at group level (Model/GroupAlign): group_align_exact* - if every matched pair's reference position is T of the group row it names, the reported fit is T, EVERY member at EVERY position (matched or not, empty catalog or not) moves by the one map T and every matched row lands on its reference position (FITS flat sky and gWCS with arbitrary bijective pipeline pieces, all four geometries), group_align_reported_is_applied (no exactness hypothesis), group_align_weights, group_align_plane_independent(_exact), group_align_can_be_iterated; correspondence of real align_to_ref on FITS groups with a fake matcher in exact rationals; several images in one call in a shared user-supplied plane (finding F29, repaired).",
+        "alternative plane (rotated / scaled / other corrector type). ADDED: the whole of align_to_ref at group level (Model/GroupAlign): group_align_exact* - if every matched pair's reference position is T of the group row it names, the reported fit is T, EVERY member at EVERY position (matched or not, empty catalog or not) moves by the one map T and every matched row lands on its reference position (FITS flat sky and gWCS with arbitrary bijective pipeline pieces, all four geometries), group_align_reported_is_applied (no exactness hypothesis), group_align_weights, group_align_plane_independent(_exact), group_align_can_be_iterated; correspondence of real align_to_ref on FITS groups with a fake matcher in exact rationals; several images in one call in a shared user-supplied plane (finding F29, repaired); group_zero_weight_source_irrelevant (two groups differing only in sources without weight get the same fit and the same corrected WCS of every member) and group_align_exact_weighted (only the positively weighted pairs need be noise-free).",
    note="On the sphere the statements hold up to the first-order plane-to-plane term (correction size x tangent-point "
         "separation x field size) that the property itself allows: tolerance, not theorem. For rshift/rscale the "
         "alternative plane must be a conformal chart (the family is closed only under similarities).",
